@@ -321,6 +321,9 @@ type PipeSim struct {
 	loadingLeft int
 	// busyLeft > 0: the target answers the next busyLeft replayed business commands with -BUSY (a script of another
 	// client runs past its time limit): fault target_busy of the crash harness
+	// oomLeft > 0: the target is out of memory during the tool's next start: the next oomLeft commands that may grow
+	// the dataset are refused with -OOM, deletions and reads are served (fault target_oom_at_start, bidirectional harness)
+	oomLeft     int
 	busyLeft    int
 	loadingSkip int // requests served before the refusals begin (the load - or a blocking script - ends or begins in the middle of the start)
 }
@@ -330,6 +333,7 @@ var okLoading = map[string]bool{"auth": true, "hello": true, "info": true, "sele
 	"client": true, "command": true, "config": true, "script": true}
 
 const loadingReply = "LOADING Redis is loading the dataset in memory"
+const oomReply = "OOM command not allowed when used memory > 'maxmemory'."
 const busyReply = "BUSY Redis is busy running a script. You can only call SCRIPT KILL or SHUTDOWN NOSAVE."
 
 func NewPipeSim(r *Run, prop string, cfg PipeCfg, st *Stream) *PipeSim {
@@ -347,6 +351,17 @@ func NewPipeSim(r *Run, prop string, cfg PipeCfg, st *Stream) *PipeSim {
 				ps.inc.refused = true
 			}
 			v := resp.Err(busyReply)
+			return &v
+		}
+		if ps.oomLeft > 0 && denyOOM[name] {
+			ps.oomLeft--
+			if ss.InMulti {
+				ss.QueueErr = true
+			}
+			if ps.inc != nil {
+				ps.inc.refused = true
+			}
+			v := resp.Err(oomReply)
 			return &v
 		}
 		if ps.loadingLeft <= 0 || okLoading[name] {
@@ -494,7 +509,7 @@ func (ps *PipeSim) startIncarnation() {
 func (ps *PipeSim) absorb() {
 	for ; ps.logPos < len(ps.srv.Log); ps.logPos++ {
 		e := ps.srv.Log[ps.logPos]
-		if e.IsErr && (e.Reply == loadingReply || e.Reply == busyReply) {
+		if e.IsErr && (e.Reply == loadingReply || e.Reply == busyReply || e.Reply == oomReply) {
 			continue // injected: the target is loading
 		}
 		if e.IsErr {
